@@ -54,22 +54,6 @@ def canonicalize_url(
     if strip_fragment:
         fragment = None
 
-    # Path normalization
-    if path:
-        # NOTE: normpath drops the trailing slash, but "/a/" is not "/a"
-        trailing_slash = path.endswith(("/", "/.", "/.."))
-        path = normpath(path)
-
-        if trailing_slash and path:
-            path += "/"
-
-    # Empty path etc.
-    if not path or path == "/":
-        if not query and not fragment:
-            path = ""
-        else:
-            path = "/"
-
     # Quotes
     # NOTE: the quoted form is the quoted version of the unquoted canonical
     # form, else the spelling of the input's escapes would leak into the result
@@ -86,6 +70,22 @@ def canonicalize_url(
             password = safely_quote(password, "/:")
 
     path = safely_unquote_path(path)
+
+    # Path normalization (once unquoted so "%2E%2E" is resolved like "..")
+    if path:
+        # NOTE: normpath drops the trailing slash, but "/a/" is not "/a"
+        trailing_slash = path.endswith(("/", "/.", "/.."))
+        path = normpath(path)
+
+        if trailing_slash and path:
+            path += "/"
+
+    # Empty path etc.
+    if not path or path == "/":
+        if not query and not fragment:
+            path = ""
+        else:
+            path = "/"
 
     if quoted:
         path = safely_quote(path)
